@@ -3,7 +3,7 @@ from harness.foldkern import *   # noqa: F401,F403
 from harness import foldkern as fk
 
 META = {
-    'bounds': 'fold_int: BinOp(Constant(a), op, Constant(b)) for all 0 <= a, b < 10^6 (symbolic; int or the boolean a != 0; < 32 for | ^ &), 13 operators '
+    'bounds': 'fold_int: BinOp(Constant(a), op, Constant(b)) for all 0 <= a, b < 10^6 (symbolic; int or the boolean a != 0; < 16 for | ^ &), 13 operators '
               '(shift counts <= 8, exponents <= 3); fold_pairs: two expressions in one module over %d representative literals of every '
               'numeric type x 4 type variants of each operand x 13 operators; fold_nested: two nested operators over the same literals '
               'in %d syntactic contexts; number_print: %d numeric constants (incl. 1e999, 5e-324, 2**64, imaginary) x sign x context' % (fk.N_VALS, fk.N_CTX, fk.N_NUMS),
@@ -27,7 +27,7 @@ def obligations(tier, seed):
                 nested.append(fix(0, 4, o) + fix(4, 1, r) + fix(5, 4, c))
     return [
         dict(name='C07b.fold_int', fn='fold_int', timeout=t, shards=[['op == %d' % o, 'a_bool == %s' % ab] for o in range(fk.N_OPS) for ab in (True, False)],
-             bounds='all 0 <= a,b < 10^6 (bitwise | ^ &: < 32, where z3 has to realise the operands), 13 operators, int/bool operands'),
+             bounds='all 0 <= a,b < 10^6 (bitwise | ^ &: < 16, where z3 has to realise the operands), 13 operators, int/bool operands'),
         dict(name='C07b.fold_int.twin', fn='fold_int_twin', timeout=t, shards=[[]], expect='refuted', bounds='reachability twin: something is folded'),
         dict(name='C07.fold_pairs', fn='fold_pairs_b', timeout=t,
              shards=[['b0 == %s' % bool(o & 1), 'b1 == %s' % bool(o & 2), 'b2 == %s' % bool(o & 4), 'b3 == %s' % bool(o & 8)] for o in range(fk.N_OPS)],
